@@ -46,7 +46,7 @@ func (h *Hub) startWebsocketServer() error {
 	addr := fmt.Sprintf(":%d", h.port)
 	logging.Log().Debug("starting websocket server on", addr)
 
-	h.httpServer = &http.Server{
+	httpServer := &http.Server{
 		Addr:              addr,
 		Handler:           h,
 		ReadHeaderTimeout: time.Duration(time.Second * 10),
@@ -59,8 +59,12 @@ func (h *Hub) startWebsocketServer() error {
 		},
 	}
 
+	h.muxStarted.Lock()
+	h.httpServer = httpServer
+	h.muxStarted.Unlock()
+
 	go func() {
-		if err := h.httpServer.ListenAndServeTLS("", ""); err != nil {
+		if err := httpServer.ListenAndServeTLS("", ""); err != nil {
 			logging.Log().Error("websocket server error:", err)
 			// TODO: decide how to handle this case
 		}
